@@ -12,6 +12,15 @@ mod printer;
 mod render;
 mod typecheck;
 
+/// Like `eprintln!`, but a stderr that has gone away (`agrind ... 2>&1 | head -1`) must not turn the
+/// message into a panic: nobody is left to read it.
+macro_rules! complain {
+    ($($arg:tt)*) => {{
+        use std::io::Write as _;
+        let _ = writeln!(std::io::stderr(), $($arg)*);
+    }};
+}
+
 pub mod pipeline {
     use crate::data::{DisplayConfig, Record, Row};
     pub use crate::errors::{ErrorReporter, QueryContainer, TermErrorReporter};
@@ -239,7 +248,7 @@ pub mod pipeline {
                         let result = renderer.render(&row, false);
 
                         if let Err(e) = result {
-                            eprintln!("error: {}", e);
+                            complain!("error: {}", e);
                             failed.store(true, Ordering::Relaxed);
                             break;
                         }
@@ -270,7 +279,7 @@ pub mod pipeline {
                         renderer.render(&Pipeline::run_agg_pipeline(&*head, &mut rest), false);
 
                     if let Err(e) = result {
-                        eprintln!("error: {}", e);
+                        complain!("error: {}", e);
                         failed.store(true, Ordering::Relaxed);
                         return;
                     }
@@ -279,7 +288,7 @@ pub mod pipeline {
             let result = renderer.render(&Pipeline::run_agg_pipeline(&*head, &mut rest), true);
 
             if let Err(e) = result {
-                eprintln!("error: {}", e);
+                complain!("error: {}", e);
             }
         }
 
@@ -309,7 +318,7 @@ pub mod pipeline {
                 let ct = match buf.read_until(b'\n', &mut line) {
                     Ok(ct) => ct,
                     Err(e) => {
-                        eprintln!("error: {}", e);
+                        complain!("error: {}", e);
                         break;
                     }
                 };
@@ -342,7 +351,7 @@ pub mod pipeline {
             drop(tx);
             match t.join() {
                 Ok(_) => (),
-                Err(e) => eprintln!("Error: {:?}", e),
+                Err(e) => complain!("Error: {:?}", e),
             }
         }
 
@@ -358,7 +367,7 @@ pub mod pipeline {
                     Ok(Some(next_rec)) => rec = next_rec,
                     Ok(None) => return true,
                     Err(err) => {
-                        eprintln!("error: {}", err);
+                        complain!("error: {}", err);
                         return true;
                     }
                 }
